@@ -65,6 +65,20 @@ def gen(rnd, tier):
             if D.clean(e, D.encode(follow)):
                 cases.append(D.stream_case([e, follow], tag="alt-introducer"))
                 cases.append(D.stream_case([("runes", [97]), e, follow, ("key", 0, False)], tag="alt-introducer"))
+    # a documented key (with and without alt) cut at every position by the end of a full 256-byte read: "in any context"
+    # includes the context of the reads it arrives in
+    ents = list(range(n_ref))
+    if tier == "quick":
+        ents = rnd.sample(ents, 24)
+    for i in ents:
+        for alt in ([False, True] if not D.ref()[i][2] else [False]):
+            e = ("key", i, alt)
+            eb = D.encode(e)
+            for cut in range(1, len(eb)):
+                pre = 256 - cut
+                evs = [("runes", [97 + (k % 26) for k in range(pre - 1)]), ("ctl", 13, False), e, ("ctl", 9, False), ("runes", [122])]
+                if all(D.clean(evs[j], [b for x in evs[j + 1:] for b in D.encode(x)]) for j in range(len(evs))):
+                    cases.append(D.stream_case(evs, tag="key-across-reads"))
     # random well-formed streams read together
     n = 500 if tier == "quick" else 20000
     for _ in range(n):
